@@ -19,6 +19,18 @@ pub const ENOENT: i32 = -2;
 pub const EINVAL: i32 = -22;
 pub const EBADF: i32 = -9;
 
+/// Bit of `RAct::Push::flag`: the SQE goes through the file's second,
+/// O_DIRECT handle (the low four bits select the IOSQE flag).
+pub const DIRECT: u8 = 16;
+
+pub fn is_direct(flag: u8) -> bool {
+    flag & DIRECT != 0
+}
+
+pub fn sqe_flag(flag: u8) -> u8 {
+    flag & 15
+}
+
 #[derive(Clone, Debug, PartialEq)]
 pub enum SqKind {
     Read { file: usize, off: u64, n: u32 },
@@ -219,12 +231,13 @@ impl Script {
                         SqKind::Fsync { file } => format!("fsync(f{file})"),
                         SqKind::Cancel { target } => format!("cancel({})", ud(*target)),
                     };
-                    let fl = match flag {
+                    let fl = match sqe_flag(*flag) {
                         0 => "",
                         1 => "+async",
                         _ => "+badflag",
                     };
-                    format!("push(r{ring},{},{k}{fl})", ud(*u))
+                    let d = if is_direct(*flag) { "+direct" } else { "" };
+                    format!("push(r{ring},{},{k}{fl}{d})", ud(*u))
                 }
                 RAct::Submit { ring } => format!("submit(r{ring})"),
                 RAct::Advance { ns } => format!("adv({})", tb(*ns)),
@@ -246,9 +259,10 @@ impl Script {
             Lat::Range(..) => "latR",
         };
         format!(
-            "{lat}{}{}|d{:?}|{}",
+            "{lat}{}{}{}|d{:?}|{}",
             if self.cfg.page_cache { "+pc" } else { "" },
             if self.cfg.capacity.is_some() { "+cap" } else { "" },
+            if self.cfg.dio_align.is_some() { "+dio" } else { "" },
             self.depths,
             parts.join(";")
         )
@@ -273,6 +287,7 @@ pub fn gen_script(rng: &mut Rng, max_acts: usize, crashes: bool) -> Script {
         page_cache: rng.chance(0.35),
         fs_seed: rng.next_u64(),
         capacity: None,
+        dio_align: None,
     };
     let nrings = rng.range(1, 3) as usize;
     let depths: Vec<u32> = (0..nrings).map(|_| *rng.pick(&[1u32, 2, 4, 8])).collect();
@@ -283,6 +298,12 @@ pub fn gen_script(rng: &mut Rng, max_acts: usize, crashes: bool) -> Script {
         let used: u64 = (0..nfiles).map(|i| initial_content(i).len() as u64).sum();
         cfg.capacity = Some(used + *rng.pick(&[2u64, 6, 12, 24, 48]));
     }
+    // every file also gets an O_DIRECT handle (small alignment so that the
+    // small files of these scripts can be addressed block-wise)
+    if rng.chance(0.4) {
+        cfg.dio_align = Some(8);
+    }
+    let dio = cfg.dio_align;
     let n = rng.range(6, max_acts as u64) as usize;
     let (lmin, lmax) = (lat.min().as_nanos() as u64, lat.max().as_nanos() as u64);
     let mut acts = vec![];
@@ -305,6 +326,9 @@ pub fn gen_script(rng: &mut Rng, max_acts: usize, crashes: bool) -> Script {
                 kind: gen_kind(rng, nfiles, &known),
                 flag: 0,
             });
+            if let Some(RAct::Push { kind, flag, .. }) = acts.last_mut() {
+                directify(rng, dio, kind, flag);
+            }
             continue;
         }
         let ring = rng.usize_below(nrings);
@@ -324,11 +348,13 @@ pub fn gen_script(rng: &mut Rng, max_acts: usize, crashes: bool) -> Script {
                     known.push(ud);
                     sq_len[ring] += 1;
                 }
-                let flag = match rng.below(25) {
+                let mut flag = match rng.below(25) {
                     0 => 1,
                     1 => *rng.pick(&[2u8, 3, 4, 5, 6]),
                     _ => 0,
                 };
+                let mut kind = kind;
+                directify(rng, dio, &mut kind, &mut flag);
                 acts.push(RAct::Push { ring, ud, kind, flag });
             }
             42..=43 => {
@@ -382,6 +408,25 @@ pub fn gen_script(rng: &mut Rng, max_acts: usize, crashes: bool) -> Script {
         depths,
         nfiles,
         acts,
+    }
+}
+
+/// With O_DIRECT handles configured: send some reads / writes / fsyncs
+/// through the direct handle, mostly block aligned (sometimes not: -EINVAL).
+fn directify(rng: &mut Rng, dio: Option<u64>, kind: &mut SqKind, flag: &mut u8) {
+    let Some(a) = dio else { return };
+    if matches!(kind, SqKind::Cancel { .. }) || !rng.chance(0.35) {
+        return;
+    }
+    *flag |= DIRECT;
+    if rng.chance(0.85) {
+        match kind {
+            SqKind::Read { off, n, .. } | SqKind::Write { off, n, .. } => {
+                *off = a * rng.below(3);
+                *n = (a * rng.range(1, 2)) as u32;
+            }
+            _ => {}
+        }
     }
 }
 
@@ -448,6 +493,9 @@ pub struct Model {
     pub rings: Vec<RingM>,
     /// current generation of each file handle (None = closed)
     pub open_gen: Vec<Option<u64>>,
+    /// generation of each file's O_DIRECT handle (None = not open)
+    pub direct_gen: Vec<Option<u64>>,
+    pub dio_align: Option<u64>,
     pub next_gen: u64,
     /// user_data lost in a crash: must never complete
     pub dead: BTreeSet<u64>,
@@ -463,6 +511,8 @@ pub struct CqeExpect {
     /// for reads: expected bytes for the normal result
     pub data: Option<Vec<u8>>,
     pub undetermined_closed: bool,
+    /// misaligned O_DIRECT operation: -EINVAL, no effect
+    pub misaligned_direct: bool,
 }
 
 impl Model {
@@ -478,6 +528,8 @@ impl Model {
                 })
                 .collect(),
             open_gen: vec![None; s.nfiles],
+            direct_gen: vec![None; s.nfiles],
+            dio_align: s.cfg.dio_align,
             next_gen: 1,
             dead: BTreeSet::new(),
             now: 0,
@@ -488,6 +540,11 @@ impl Model {
 
     pub fn open_file(&mut self, i: usize) {
         self.open_gen[i] = Some(self.next_gen);
+        self.next_gen += 1;
+    }
+
+    pub fn open_direct(&mut self, i: usize) {
+        self.direct_gen[i] = Some(self.next_gen);
         self.next_gen += 1;
     }
 
@@ -507,7 +564,11 @@ impl Model {
         }
         let fd_gen = match kind {
             SqKind::Read { file, .. } | SqKind::Write { file, .. } | SqKind::Fsync { file } => {
-                self.open_gen[*file]
+                if is_direct(flag) {
+                    self.direct_gen[*file]
+                } else {
+                    self.open_gen[*file]
+                }
             }
             SqKind::Cancel { .. } => None,
         };
@@ -540,7 +601,7 @@ impl Model {
                 fixed: None,
                 e: e.clone(),
             };
-            if e.flag >= 2 {
+            if sqe_flag(e.flag) >= 2 {
                 inf.fixed = Some(EINVAL);
                 inf.min_ready = now;
                 inf.max_ready = now;
@@ -562,8 +623,10 @@ impl Model {
                             inf.fixed = Some(ENOENT);
                         }
                     }
-                    SqKind::Read { .. } if pc => {
-                        // a buffered read may hit the page cache (100 ns)
+                    SqKind::Read { .. } if pc && !is_direct(e.flag) => {
+                        // a buffered read may hit the page cache (100 ns);
+                        // an O_DIRECT read bypasses the cache and always
+                        // pays the configured latency
                         inf.min_ready = now + lmin.min(100);
                         inf.max_ready = now + lmax.max(100);
                     }
@@ -583,6 +646,7 @@ impl Model {
             results: vec![],
             data: None,
             undetermined_closed: false,
+            misaligned_direct: false,
         };
         if inf.cancelled {
             exp.results = vec![ECANCELED];
@@ -603,7 +667,12 @@ impl Model {
             exp.results = vec![EBADF];
             return Some((inf, exp));
         };
-        if self.open_gen[file] != Some(g) {
+        let current = if is_direct(inf.e.flag) {
+            self.direct_gen[file]
+        } else {
+            self.open_gen[file]
+        };
+        if current != Some(g) {
             // descriptor closed between push and completion: Linux keeps the
             // open file description alive, the simulation documents EBADF;
             // the property text does not decide — both accepted, the model
@@ -611,6 +680,26 @@ impl Model {
             exp.undetermined_closed = true;
         }
         let path = file_path(file);
+        if is_direct(inf.e.flag) {
+            // O_DIRECT: offset and length must be multiples of the alignment
+            // (the harness always supplies an aligned buffer), else EINVAL
+            // and no effect — as through the synchronous API
+            let a = self.dio_align.unwrap_or(512);
+            let misaligned = match &inf.e.kind {
+                SqKind::Read { off, n, .. } | SqKind::Write { off, n, .. } => {
+                    off % a != 0 || (*n as u64) % a != 0
+                }
+                _ => false,
+            };
+            if misaligned {
+                exp.results = vec![EINVAL];
+                exp.misaligned_direct = true;
+                if exp.undetermined_closed {
+                    exp.results.push(EBADF);
+                }
+                return Some((inf, exp));
+            }
+        }
         match &inf.e.kind {
             SqKind::Read { off, n, .. } => {
                 let c = self.file_content(file).unwrap_or_default();
@@ -683,6 +772,9 @@ impl Model {
         for g in &mut self.open_gen {
             *g = None;
         }
+        for g in &mut self.direct_gen {
+            *g = None;
+        }
     }
 }
 
@@ -696,6 +788,7 @@ pub fn gen_san_script(rng: &mut Rng) -> Script {
         page_cache: rng.chance(0.3),
         fs_seed: rng.next_u64(),
         capacity: None,
+        dio_align: None,
     };
     let nfiles = rng.range(1, 2) as usize;
     let depth = *rng.pick(&[4u32, 8]);
